@@ -115,6 +115,7 @@ fn scenarios<TC: ModelCfg>(quick: bool, three: bool) -> Vec<ScCase> {
                     post_gates: false,
                     faults: 0,
                     faultable: no_fault,
+                    cold_writer_cache: false,
                 },
             });
         }
